@@ -416,6 +416,8 @@ pub fn run_family(f: Arc<Family>, threads: usize, deadline: Instant, stats: Arc<
                 for k in start..(start + 4096).min(total)
                 {
                     let g = decode(&f, k);
+                    let _w = crate::watch::item(|| (format!("dependency analysis of the rules {} (every goal of the family)", g.iter().map(|r| format!("{:?}<-{:?}", r.targets, r.sources)).collect::<Vec<_>>().join(", ")),
+                        json!({"engine": "sort", "rules": g, "goal": "*"})));
                     stats.graphs.fetch_add(1, Ordering::Relaxed);
                     for goal in &f.goals
                     {
@@ -552,6 +554,7 @@ pub fn run(rep: &mut Report, tier: &str)
                         for goal in &f.goals
                         {
                             rcount += 1;
+                            let _w = crate::watch::item(|| (format!("dependency analysis of {} rules with one given twice, goal {:?}", g2.len(), goal), json!({"engine": "sort", "rules": g2, "goal": goal})));
                             stats.cases.fetch_add(1, Ordering::Relaxed);
                             stats.rejected.fetch_add(1, Ordering::Relaxed);
                             if let Some(msg) = check_one(&g2, goal, &orders)
@@ -576,6 +579,7 @@ pub fn run(rep: &mut Report, tier: &str)
         for goal in goals
         {
             pcount += 1;
+            let _w = crate::watch::item(|| (format!("dependency analysis of the parametric graph {} with goal {:?}", name, goal), json!({"engine": "sort", "rules": g, "goal": goal})));
             stats.cases.fetch_add(1, Ordering::Relaxed);
             if let Some(msg) = check_one(&g, &goal, &orders)
             {
@@ -611,8 +615,20 @@ pub fn run(rep: &mut Report, tier: &str)
 pub fn replay(v: &Value) -> i32
 {
     let g: Vec<GRule> = serde_json::from_value(v["rules"].clone()).unwrap_or_default();
-    let goal: Option<String> = serde_json::from_value(v["goal"].clone()).unwrap_or(None);
     let orders = vec![(0..g.len()).rev().collect::<Vec<_>>()];
+    if v["goal"].as_str() == Some("*")
+    {
+        // every goal: none, each target, an absent one
+        let mut goals: Vec<Option<String>> = vec![None, Some("nope".to_string())];
+        for r in &g { for t in &r.targets { goals.push(Some(t.clone())); } }
+        let mut rc = 0;
+        for goal in goals
+        {
+            if let Some(m) = check_one(&g, &goal, &orders) { println!("goal {:?}: {}", goal, m); rc = 1; }
+        }
+        return rc;
+    }
+    let goal: Option<String> = serde_json::from_value(v["goal"].clone()).unwrap_or(None);
     println!("rules: {}", g.iter().map(|r| format!("{:?}<-{:?}", r.targets, r.sources)).collect::<Vec<_>>().join(", "));
     println!("goal: {:?}; result: {:?}", goal, run_sort(&g, &goal).map(|p| p.nodes.iter().map(|n| n.targets.clone()).collect::<Vec<_>>()));
     match check_one(&g, &goal, &orders)
